@@ -79,6 +79,30 @@ func (cfg *Config) SetDisabledChecks(l []string) {
 	}
 }
 
+// SetEnabledChecks does for the --enabled flag what SetDisabledChecks does for --disabled: every value
+// is a check name or a regexp that matches check names. The list of enabled checks only works with
+// exact names, so a value that matches no check at all would silently turn every check off.
+func (cfg *Config) SetEnabledChecks(l []string) error {
+	enabled := make([]string, 0, len(l))
+	for _, s := range l {
+		re, err := regexp.Compile(fullMatchPattern(s))
+		var found bool
+		for _, name := range checks.CheckNames {
+			if name == s || (err == nil && re.MatchString(name)) {
+				found = true
+				if !slices.Contains(enabled, name) {
+					enabled = append(enabled, name)
+				}
+			}
+		}
+		if !found {
+			return fmt.Errorf("unknown check name %s", s)
+		}
+	}
+	cfg.Checks.Enabled = enabled
+	return nil
+}
+
 func (cfg Config) String() string {
 	content, _ := json.MarshalIndent(cfg, "", "  ")
 	return string(content)
